@@ -25,7 +25,7 @@ pub struct UploadConfig {
 }
 
 #[derive(Deserialize)]
-#[serde(tag = "name")]
+#[serde(tag = "name", deny_unknown_fields)]
 pub enum ProviderConfig {
     #[serde(rename = "dropbox")]
     Dropbox {
